@@ -18,6 +18,7 @@ import Knut.Driver.C14
 import Knut.Driver.C05
 import Knut.Driver.GoSem
 import Knut.Driver.GoSemTree
+import Knut.Driver.GoSemSyn
 import Knut.Driver.C09Cmd
 /-! Line-protocol driver over the executable model: one request per line (`op field*`), one answer line.
 Each property contributes a handler module `Knut/Driver/<X>.lean`; add it to `handlers`. -/
@@ -44,6 +45,7 @@ def handlers : List (List String → Option String) := [
   Knut.Driver.Load.handle,
   Knut.Driver.GoSem.handle,
   Knut.Driver.GoSemTree.handle,
+  Knut.Driver.GoSemSyn.handle,
   Knut.Driver.C09Cmd.handle
 ]
 
